@@ -20,6 +20,7 @@ import (
 	"github.com/postalsys/muti-metroo/internal/logging"
 	"github.com/postalsys/muti-metroo/internal/protocol"
 	"github.com/postalsys/muti-metroo/internal/recovery"
+	"github.com/postalsys/muti-metroo/internal/verifhook"
 )
 
 // State represents the current sleep state of an agent.
@@ -359,6 +360,7 @@ func (m *Manager) Poll() error {
 	m.stateMu.Unlock()
 
 	m.logger.Debug("starting poll")
+	verifhook.Point("sleep.poll_before_onpoll", m)
 
 	// Call poll callback
 	if m.callbacks.OnPoll != nil {
@@ -373,6 +375,7 @@ func (m *Manager) Poll() error {
 	case <-m.stopCh:
 		return nil
 	}
+	verifhook.Point("sleep.poll_before_end", m)
 
 	m.stateMu.Lock()
 	defer m.stateMu.Unlock()
